@@ -229,7 +229,7 @@ class Runner(object):
                         exhausted = True
                         break
                     fut = ex.submit(_worker_eval, case)
-                    pending[fut] = (case, time.time())
+                    pending[fut] = [case, None]
                 if not pending:
                     break
                 done, _ = concurrent.futures.wait(
@@ -245,9 +245,15 @@ class Runner(object):
                             'msg': 'worker died:\n' + traceback.format_exc()}]}
                     yield case, res
                 now = time.time()
-                for fut, (case, t_start) in list(pending.items()):
-                    if fut.running() and now - t_start > case_timeout + 60 * (
-                            len(pending) // jobs + 1):
+                for fut, slot in list(pending.items()):
+                    case, t_start = slot
+                    if not fut.running():
+                        continue
+                    if t_start is None:
+                        # the clock starts when the case leaves the queue
+                        slot[1] = now
+                        continue
+                    if now - t_start > case_timeout + 120:
                         pending.pop(fut)
                         yield case, {'violations': [{
                             'key': 'hang',
